@@ -3,16 +3,17 @@ import ClockBound.Proofs.RsPoller
 namespace ClockBound.Rs.PollerProof
 open ClockBound ClockBound.Rs ClockBound.Generated ClockBound.Rs.DictPoller ClockBound.Rs.NowProof
 
-/-- the same iteration when `dbox.send` returns `Err(x)` (the receiving end of the channel is gone): the thread
+/-- the same turn when `dbox.send` returns `Err(x)` (the receiving end of the channel is gone): the thread
     panics ("Broken channel to ShmWriter") -/
 def IterSendFails (e : IterEnv) (s : PollerState) (coarse : TimeSpec) (reply : ReplyKind) (tReply tGrace : Int)
     (refid : Option Nat) (file : PhcFile) : Prop :=
-  ∀ (x : Value) (nowNs : Int) (inp : Nat → Value) (log : List Value) (pos : Nat) (c : Expr) (body : List Stmt)
-    (_hfw : findWhile Code.fn_chrony_poller__run_clock_error_bound_poller_stmts = some (c, body))
+  ∀ (x : Value) (nowNs : Int) (inp : Nat → Value) (log : List Value) (pos : Nat) (pre : List Stmt) (c : Expr)
+    (body : List Stmt)
+    (_hfl : findLoop Code.fn_chrony_poller__run_clock_error_bound_poller_stmts = some (pre, c, body))
     (_hother : e.other ≠ "ReplyBody::Tracking") (_hsend : e.sendRes = .enumv "Err" [x])
     (_hin : inputsAt inp pos ((pollTrace s coarse reply tReply tGrace (phcOf refid file)).map (pollEvInput e)))
-    (N : Nat) (_hN : 60 ≤ N) (next : St → Res),
-    ((evalBlock N (ctxP nowNs [] inp) frP body (pollerLoopSt e true s refid log pos)).popTo 5).loopNext next = .panic
+    (K : Nat) (_hK : 60 ≤ K),
+    evalWhile (K + 2) (ctxP nowNs [] inp) frP c body (topP nowNs inp pre e s refid log pos) = .panic
 
 set_option hygiene false in
 macro "fail_start" : tactic => `(tactic| (intro x; iter_start))
